@@ -38,7 +38,7 @@ KINDS = {'bfs': (16, 32, 1), 'hist_dwarf': (48, 1200, 2), 'hist_elf': (48, 1200,
 FLOOR = {'quick': 5000, 'thorough': 100000}
 CASE_TIMEOUT = 3000
 STEP_BUDGET = 2000000000
-BFS_LIMITS = {'quick': (8, 330), 'thorough': (12, 2500)}     # (depth bound, state cap per file)
+BFS_LIMITS = {'quick': (8, 9000), 'thorough': (12, 150000)}     # (depth bound, transition budget per file)
 REACH = ['elftools.dwarf.dwarfinfo:DWARFInfo._cached_CU_at_offset', 'elftools.dwarf.compileunit:CompileUnit._get_cached_DIE',
          'elftools.dwarf.compileunit:CompileUnit.iter_DIE_children', 'elftools.dwarf.die:DIE._search_ancestor_offspring',
          'elftools.dwarf.dwarfinfo:DWARFInfo.get_CU_containing', 'elftools.common.utils:preserve_stream_pos']
@@ -292,17 +292,21 @@ def run_bfs(idx, rng, sh):
     depth = 0
     closed = False
     known_fid = 'lineprogram_header_grows_after_decoding'
-    while frontier and depth < depth_bound:
+    expanded = 0
+    out_of_budget = False
+    while frontier and depth < depth_bound and not out_of_budget:
         nxt = []
         for path in frontier:
+            if transitions >= cap:
+                out_of_budget = True        # remaining frontier states stay unexpanded (reported)
+                break
+            expanded += 1
             for op in ops:
                 d, streams = mk()
                 st = list(streams.values())
                 for p in path:
                     poison(st, rng)
                     dwarf_apply(d, p)
-                if path and absstate(d) != [h for h, pp in seen.items() if pp == path][0:1] and False:
-                    pass
                 poison(st, rng)
                 r = dwarf_apply(d, op)
                 transitions += 1
@@ -325,12 +329,12 @@ def run_bfs(idx, rng, sh):
                 if h not in seen:
                     seen[h] = path + (op,)
                     nxt.append(path + (op,))
+        if out_of_budget:
+            break
         depth += 1
         frontier = nxt
         if not nxt:
             closed = True
-        if len(seen) >= cap:
-            break
     # replay determinism: a recorded path must reproduce its abstract state
     for h, path in list(seen.items())[:: max(1, len(seen) // 25)]:
         d, streams = mk()
@@ -349,7 +353,7 @@ def run_bfs(idx, rng, sh):
     sh.extra['max_bfs_depth_reached'] = depth
     sh.extra.setdefault('bfs', []).append({'file': idx, 'units': len(B.units), 'type_units': len(B.tunits),
                                            'entries': sum(len(U.dies) for U in B.units + B.tunits), 'line_programs': with_lines,
-                                           'alphabet': len(ops), 'states': len(seen), 'transitions': transitions, 'depth': depth,
+                                           'alphabet': len(ops), 'states': len(seen), 'states_fully_expanded': expanded, 'transitions': transitions, 'depth': depth,
                                            'frontier_closed': closed})
     sh.sample({'mode': 'bfs', 'alphabet': [list(o) for o in ops[:12]], 'states': len(seen), 'transitions': transitions,
                'depth': depth, 'closed': closed}, kind='bfs')
